@@ -214,3 +214,54 @@ package ss2022
 //@   ensures isnil(err) && p.currentServerSessionFilter != old(p.currentServerSessionFilter) ==> p.oldServerSessionID == old(p.currentServerSessionID) && p.oldServerSessionFilter == old(p.currentServerSessionFilter) && p.oldServerSessionAEAD == old(p.currentServerSessionAEAD) && p.currentServerSessionID == be64(b[packetStart:]) && fresh(p.currentServerSessionFilter)
 //@   ensures isnil(err) && p.currentServerSessionFilter == old(p.currentServerSessionFilter) ==> p.currentServerSessionID == old(p.currentServerSessionID) && p.oldServerSessionID == old(p.oldServerSessionID) && p.oldServerSessionFilter == old(p.oldServerSessionFilter)
 //@   ensures isnil(err) ==> payloadStart >= packetStart + 16 && payloadLen >= 0 && payloadStart + payloadLen + 16 == packetStart + packetLen
+
+// ---------------------------------------------------------------------------
+// UDP packers and header writers (property C05)
+// ---------------------------------------------------------------------------
+
+//@ func intToUint16
+//@   requires 0 <= i && i <= 65535
+//@   modifies nothing
+//@   ensures int(u) == i
+
+//@ func PutSessionIDAndPacketID
+//@   requires len(b) >= 16
+//@   modifies b[0:16]
+//@   ensures be64(b) == sid && be64(b[8:]) == pid
+
+//@ func PutUDPClientMessageHeader
+//@   requires conn.AddrWF(targetAddr) && 0 <= paddingLen && paddingLen <= 65535
+//@   requires len(b) == 11 + paddingLen + socks5.LengthOfAddrFromConnAddr(targetAddr)
+//@   modifies b[0:len(b)]
+//@   ensures b[0] == 0 && int64(be64(b[1:])) == now.Unix() && int(be16(b[9:])) == paddingLen
+
+//@ func PutUDPServerMessageHeader
+//@   requires 0 <= paddingLen && paddingLen <= 65535
+//@   requires len(b) == 19 + paddingLen + socks5.LengthOfAddrFromAddrPort(sourceAddrPort)
+//@   modifies b[0:len(b)]
+//@   ensures b[0] == 1 && int64(be64(b[1:])) == now.Unix() && be64(b[9:]) == csid && int(be16(b[17:])) == paddingLen
+
+// Front space a client packet needs at zero padding: separate header + identity headers + fixed header + address.
+//@ pure spcpNeed(p *ShadowPacketClientPacker, a conn.Addr) int = p.nonAEADHeaderLen + 11 + socks5.LengthOfAddrFromConnAddr(a)
+
+//@ func (*ShadowPacketClientPacker).PackInPlace
+//@   requires conn.AddrWF(targetAddr)
+//@   requires 0 <= payloadStart && 0 <= payloadLen && payloadStart <= len(b) && payloadLen <= len(b) && payloadStart + payloadLen + 16 <= len(b)
+//@   requires len(p.eihCiphers) == len(p.eihPSKHashes) && len(p.eihCiphers) <= 1024 && p.nonAEADHeaderLen == 16 + 16 * len(p.eihCiphers)
+//@   requires 0 <= p.maxPacketSize && p.maxPacketSize <= 1 << 20
+//@   requires payloadStart >= spcpNeed(p, targetAddr)
+//@   modifies b[0:len(b)], p.cpid
+//@   ensures !isnil(err) ==> err == zerocopy.ErrPayloadTooBig && p.cpid == old(p.cpid)
+//@   ensures isnil(err) ==> 0 <= packetStart && packetStart <= payloadStart - spcpNeed(p, targetAddr) && packetStart + packetLen == payloadStart + payloadLen + 16 && packetLen <= p.maxPacketSize
+//@   ensures isnil(err) ==> p.cpid == old(p.cpid) + 1 && destAddrPort == p.serverAddrPort
+//@   loop 0 modifies b[0:len(b)]
+//@   loop 0 invariant len(b) == pre(len(b))
+
+//@ func (*ShadowPacketServerPacker).PackInPlace
+//@   requires 0 <= payloadStart && 0 <= payloadLen && payloadStart <= len(b) && payloadLen <= len(b) && payloadStart + payloadLen + 16 <= len(b)
+//@   requires 0 <= maxPacketLen && maxPacketLen <= 1 << 20
+//@   requires payloadStart >= 16 + 19 + socks5.LengthOfAddrFromAddrPort(sourceAddrPort)
+//@   modifies b[0:len(b)], p.spid
+//@   ensures !isnil(err) ==> err == zerocopy.ErrPayloadTooBig && p.spid == old(p.spid)
+//@   ensures isnil(err) ==> 0 <= packetStart && packetStart <= payloadStart - 35 - socks5.LengthOfAddrFromAddrPort(sourceAddrPort) && packetStart + packetLen == payloadStart + payloadLen + 16 && packetLen <= maxPacketLen
+//@   ensures isnil(err) ==> p.spid == old(p.spid) + 1
